@@ -1,5 +1,7 @@
 #!/bin/sh
-# Builds the framework's native helpers from files on disk only (offline).
+# Builds the framework's native helper (IR -> JSON dumper) from files on disk only (offline).
 set -e
 cd "$(dirname "$0")/.."
-mkdir -p bin
+mkdir -p bin evidence
+clang++ $(llvm-config-14 --cxxflags) -fno-rtti -O1 tools/irdump.cc -o bin/irdump /usr/lib/llvm-14/lib/libLLVM-14.so
+echo "setup ok: bin/irdump"
